@@ -13,8 +13,8 @@ def run_shard(prop, tier, seed, shard, nshards):
     np, ttb = load()
     mod = importlib.import_module(f"pvm.props.{prop.lower()}")
     ctx = Ctx(prop, mutsan=getattr(mod, "MUTSAN", "off"))
-    if hasattr(mod, "setup"):
-        mod.setup(ctx)
+    if hasattr(mod, "pvm_setup"):
+        mod.pvm_setup(ctx)
     linecov.start()
     t0 = time.time()
     ncases = 0
